@@ -219,6 +219,7 @@ PRE = {
     'min': ['target_min'],
     'limits': ['x_limits'],
     'struct': ['ps-full'],
+    'struct-then-read-error': ['ps-full', '@ps-read-error'],      # the cached struct is in error state when the partial change arrives
 }
 
 
@@ -231,7 +232,7 @@ def cases(tier):
         elif name == 'x':
             pres = ['none', 'limits']
         elif name in ('ps-partial', 'ps-only-n'):
-            pres = ['none', 'struct']
+            pres = ['none', 'struct', 'struct-then-read-error']
         for pre in pres:
             out.append({'fn': 'run_requests', 'id': f'{name}/pre-{pre}', 'params': {'req': name, 'pre': pre}})
     for layout in ('hook-in-ancestor', 'limits-tuple-in-subclass'):
@@ -313,7 +314,11 @@ def run_requests(env, p):
     seq = PRE[p['pre']] + [p['req']]
     reqs = []
     cands = []
-    for i, name in enumerate(seq):
+    driver_actions = {}
+    for i, name in enumerate(list(seq)):
+        if name.startswith('@'):
+            driver_actions[len(reqs)] = name
+            continue
         action, specifier, pdesc, _ = REQS[name]
         cand = M.make(env, pdesc, f'r{i}', box={'f': 200, 'i': 200} if 'psc' in name else {'f': 2000, 'i': 2000})
         cands.append(cand)
@@ -321,14 +326,19 @@ def run_requests(env, p):
     states = []
     # feed one request at a time to be able to look at the state in between
     replies = []
+    names = [n for n in seq if not n.startswith('@')]
     for i, rq in enumerate(reqs):
+        if i in driver_actions:
+            # the driver reports a read failure for the struct parameter: the cached value stays, in error state
+            from frappy.errors import HardwareError
+            mod.announceUpdate('ps', None, HardwareError('read failed'))
         before = snapshot(mod)
         nlog, nupd = len(log), len(listener.sent)
         hidlog = None
         h, per = C.scripted_handler(srv, [rq])
         replies.append(per[0] if per else [])
         states.append((before, nlog, nupd))
-        judge(env, p, seq[i], cands[i], rq, replies[-1], before, snapshot(mod), log[nlog:], listener.sent[nupd:], mod, spec,
+        judge(env, p, names[i], cands[i], rq, replies[-1], before, snapshot(mod), log[nlog:], listener.sent[nupd:], mod, spec,
               final=i == len(reqs) - 1)
 
 
